@@ -1397,7 +1397,23 @@ theorem inv_finishArrive {n : Node} (hrx : n.rx = none) {t : Table} (ht : TInv t
     have := errNP _ hr
     exact ⟨tinv_remove (tinv_nextExchId ht1) _, by
       rw [hrx]; exact (noPending_remove (tinv_nextExchId ht1).uidN this _).pend _, by rw [hrx]; exact hnone⟩
-  · rename_i er _ hr
+  · rename_i hr
+    split
+    · exact ⟨ht1, by rw [hrx]; exact (errNP _ hr).pend _, by rw [hrx]; exact hnone⟩
+    · -- the standalone ack for the duplicate consumes a message counter of the session
+      have hslots : ∀ j, ((s.postRecv m.hdr n.now).1.preSend none false (some m.ctr) none).1.slot j = s.slot j := by
+        intro j
+        show (s.postRecv m.hdr n.now).1.slot j = s.slot j
+        exact (postRecv_effect s m.hdr n.now).2.2 _ hr j
+      have hsame2 : Same s ((s.postRecv m.hdr n.now).1.preSend none false (some m.ctr) none).1 :=
+        ⟨hsame.1.uid, hsame.1.lsid, hsame.1.port, hsame.1.mode, hsame.1.rsv⟩
+      refine ⟨tinv_setSess ht hs hsame2 hsame.2 (exchUniq_of_slots s _ (ht.uniq s hs) hslots), ?_, by rw [hrx]; exact hnone⟩
+      rw [hrx]
+      refine (noPending_setSess ht.uidN hnp hs hsame2.uid ?_).pend _
+      intro i e he
+      rw [hslots i] at he
+      exact hnp s hs i e he
+  · rename_i er _ _ hr
     exact ⟨ht1, by rw [hrx]; exact (errNP _ hr).pend _, by rw [hrx]; exact hnone⟩
 
 theorem quiet_evictSome (t : Table) (now : Nat) : Quiet t (evictSome t now).1 := by
@@ -1607,6 +1623,7 @@ theorem now_step (n : Node) (op : Op) :
               · rfl
               · split <;> rfl
           · rfl
+          · split <;> rfl
           · rfl
         · split
           · split
@@ -1620,6 +1637,7 @@ theorem now_step (n : Node) (op : Op) :
                     · rfl
                     · split <;> rfl
                 · rfl
+                · split <;> rfl
                 · rfl
               · rfl
             · rfl
